@@ -10,6 +10,8 @@ def run(ctx):
     ctx.assumptions += [
         "the specification decides layout: header/schema, row count, the label pair of every row in the documented axis order, "
         "which token sits in each dim_j, and Ok/Err; values are opaque tokens",
+        "the specification's array is a function of the index triple: the array entry points are called with the same logical array in "
+        "five memory layouts (row-major, column-major, permuted and reversed axes, a strided non-contiguous view) and must write the same file",
         "decimal fidelity (CSV) and widening to f64 (Arrow/Parquet) are checked by the harness as token identity after reading the "
         "file back with the csv / arrow / parquet crates' own readers (NaN compared as NaN)",
         "an Err on a writable path (an input the entry point cannot represent) is recorded, not counted as a violation: the "
@@ -39,7 +41,7 @@ def run(ctx):
     shutil.rmtree(d2, ignore_errors=True)
     ctx.selftest("replay: chain/observation labels of one expected row swapped", len(rs["bad"]) > 0)
     ctx.cov["rule"] = ("every (entry point, shape, path kind) in the bounds incl. all zero extents and a few larger shapes (TLC) x element types "
-                       "f32/f64/i32/usize where accepted x tensor backends; tokens bound to subnormals, extremes, -0.0, NaN, +-inf; "
+                       "f32/f64/i32/usize where accepted x five memory layouts of the array x tensor backends; tokens bound to subnormals, extremes, -0.0, NaN, +-inf; "
                        "non-trivial = successful saves with all extents >= 2")
     ctx.cov["exhaustive"] = True
 
